@@ -9,13 +9,13 @@ module docstring of mjcf_schema.py):
 * validate(root)         reference validator over an ElementTree document -> list of (rule, kind, detail)
 * Hosts                  valid host documents: a fixed prelude of referents plus a chain of minimal elements down to
                          the target element kind
-* conforming_variant / violate(rule)   single-step edits of one element of a host document, labelled with the rule
+* DocGen.valid_value / invalid_value(rule)   attribute values that conform / break exactly one rule; the single-step edits
+                         of a host element (conforming enrichment, one violation per rule kind) live in vf/props/c37.py
 
 Rule kinds: unknown-element, unknown-attribute, bad-keyword, too-many, too-few, non-numeric, missing-required,
 repeated-child, exclusive, together, requires, oneof, variant (two members of a `variant` group), range (min/max/positive),
 pattern.
 """
-import copy
 import importlib.util
 import re
 import xml.etree.ElementTree as ET
